@@ -298,6 +298,11 @@ class Wsdl11(XmlSchema):
             if method.is_callback:
                 operation = SubElement(cb_port_type, WSDL11("operation"))
             else:
+                # with several port types, the operation goes to its own.
+                if method.port_type is not None and len(port_type_list) > 0:
+                    port_type = self._get_or_create_port_type(
+                                                            method.port_type)
+
                 operation = SubElement(port_type, WSDL11("operation"))
 
             operation.set('name', method.operation_name)
